@@ -834,6 +834,12 @@ func main() {
 		return plain, true
 	}
 
+	type keptT struct {
+		got, copy []byte
+		wire      string
+	}
+	var kept []keptT
+	orKeep := ctx.NewOracle("marshal-retained", "history of library calls: the byte slices returned by the last 8 gojq.Marshal calls are kept and compared, after every further call, with the copies taken when they were returned; distinct = calls")
 	for idx, it := range items {
 		v := it.v
 		wire := common.Canon(v)
@@ -845,6 +851,19 @@ func main() {
 			continue
 		}
 		distinctMarshal[string(mb)] = true
+		// a result the caller keeps must not change when later values are marshalled (a history
+		// of calls: the last 8 results are kept and re-read after every call)
+		kept = append(kept, keptT{mb, bytes.Clone(mb), wire})
+		if len(kept) > 8 {
+			kept = kept[1:]
+		}
+		for _, k := range kept {
+			orKeep.Cases++
+			if !bytes.Equal(k.got, k.copy) {
+				violate("marshal-result-overwritten", v, fmt.Sprintf("the bytes gojq.Marshal returned for %s read %q at the time and %q after marshalling later values", clip(k.wire), clip(string(k.copy)), clip(string(k.got))), nil)
+				k.copy = bytes.Clone(k.got)
+			}
+		}
 		stMarshal.Distribution[it.class+":"+describe(v)]++
 		mLines = append(mLines, wire)
 		mImpl = append(mImpl, hex.EncodeToString(mb))
